@@ -286,11 +286,17 @@ def fNeg : FloatV → Bool
   | .inf n => n
   | .nan => false
 
-/-- `max(0.0, Convert2RealNum(t))` (`framer … at`, `bid … at`) -/
+/-- `float(i)` raises OverflowError: `|i|` rounds to 2^1024 or beyond -/
+def intTooBig (i : Int) : Bool := decide (2 ^ 1024 - 2 ^ 970 ≤ i.natAbs)
+
+/-- `max(0.0, Convert2RealNum(t))` (`framer … at`, `bid … at`); `Convert2RealNum` goes through `Convert2FloatNum`:
+ValueError for an integer too large for a float (was OverflowError further on: defect D65b) -/
 def max0 (t : Str) : P Val :=
   match convert2Num t with
   | .error _ => .error .value
-  | .ok (.int i) => .ok (if i > 0 then .int i else .float zero)       -- `max` keeps the first of equals: 0.0
+  | .ok (.int i) =>
+    if intTooBig i then .error .value
+    else .ok (if i > 0 then .int i else .float zero)       -- `max` keeps the first of equals: 0.0
   | .ok (.float f) =>
     (match f with
      | .nan => .ok (.float zero)                  -- `nan > 0.0` is false
@@ -867,6 +873,14 @@ def num (t : Str) : P Val :=
   | .error _ => .error .value
   | .ok v => .ok v
 
+/-- `Convert2FloatNum(text)` (`logger … at`, `server … at`): a number whose magnitude fits a float (integers; the
+magnitude of a complex number with components near the float limit is not modelled) -/
+def numF (t : Str) : P Val :=
+  bind (num t) fun v =>
+    match v with
+    | .int i => if intTooBig i then .error .value else .ok v
+    | v => .ok v
+
 /-- `int(Convert2Num(text))` with `except (OverflowError, ValueError, TypeError)` → ParseError (`logger … keep`;
 as found these were TypeError, ValueError, OverflowError: defects D8, D65) -/
 def numInt (t : Str) : P Val :=
@@ -883,7 +897,7 @@ def noToks (toks : List Str) : P (Unit × List Str) := .ok ((), toks)
 def ServiceWords : List Str := [str "active", str "inactive", str "slave"]
 
 def loggerClause (c : Str) (toks : List Str) (s : LoggerCfg) : P (LoggerCfg × List Str) :=
-  if c == str "at" then clauseOf oneTok num (fun s v => { s with period := some v }) toks s
+  if c == str "at" then clauseOf oneTok numF (fun s v => { s with period := some v }) toks s
   else if c == str "to" then clauseOf oneTok accept (fun s v => { s with prefix_ := v }) toks s
   else if c == str "be" then clauseOf oneTok (oneOf ServiceWords) (fun s v => { s with schedule := v }) toks s
   else if c == str "in" then clauseOf oneTok (oneOf OrderWords) (fun s v => { s with order := v }) toks s
@@ -949,7 +963,7 @@ theorem parseFieldsPath_short (toks : List Str) : Short toks.length (parseFields
       exact short_ok _ _ (by omega)
 
 def serverClause (c : Str) (toks : List Str) (s : ServerCfg) : P (ServerCfg × List Str) :=
-  if c == str "at" then clauseOf oneTok num (fun s v => { s with period := some v }) toks s
+  if c == str "at" then clauseOf oneTok numF (fun s v => { s with period := some v }) toks s
   else if c == str "to" then clauseOf oneTok accept (fun s v => { s with prefix_ := v }) toks s
   else if c == str "be" then clauseOf oneTok (oneOf ServiceWords) (fun s v => { s with schedule := v }) toks s
   else if c == str "in" then clauseOf oneTok (oneOf OrderWords) (fun s v => { s with order := v }) toks s
